@@ -174,7 +174,7 @@ std::string takeOut()
             if (m.find("applied to NULL listener") != std::string::npos) line = "!null";
             else if (m.find("applied to NIL") != std::string::npos) line = "!nil";
             else if (m.find("Cannot cast 'none' to 'listener'") != std::string::npos) line = "!nil";
-            else if (m.find("Cannot cast 'array' to 'listener'") != std::string::npos) line = "!cast";
+            else if (m.find("Cannot cast 'array' to 'listener'") != std::string::npos || m.find("Cannot cast 'const array' to 'listener'") != std::string::npos) line = "!cast";
             else if (m.find("out of range") != std::string::npos) line = "!range";
             else line = "!other:" + m;
         }
